@@ -85,7 +85,7 @@ def run(ctx):
     evs = [{k: v for k, v in e.items() if k not in ("dbg", "expect_path_in")} for e in evs]
     suites.append(("Trace_Update", "argv", evs, [dict(e, argv=e["argv"] + [[120]]) for e in evs], None))
     g = c11.build(([("pat.txt", True, " M"), ("other.txt", False, "clean")], True, 1, "clean"))
-    g = {k: v for k, v in g.items() if k not in ("dbg", "exc", "committed", "states", "spelled")}
+    g = {k: v for k, v in g.items() if k not in ("dbg", "exc", "committed", "states", "spelled", "subdir", "not_committing")}
     suites.append(("Trace_Update", "dirty", [g], [dict(g, exit=0)], None))
 
     # ---- Trace_Config
